@@ -194,8 +194,10 @@ TrApiCall == IsEv("api.call") /\ UNCHANGED <<vars, pendUpd, lastProbeMs, updDone
 TrRtCall ==
     /\ IsEv("rt.call")
     /\ LET a == AddrN(E.a) k == E.c IN
+       \* the address the RoundTripper is given is the one the routing decision produced. (Whether that address was a target is
+       \* judged at the decision - notinlist at k.sched with ListFromTargets, notdirector - not here: an Update may come between
+       \* the decision and the RoundTripper seeing the call, and the call is then rightly on its way to the old target.)
        bad' = bad \cup (IF k \in Callers /\ cst[k] = "routed" /\ croute[k] # a THEN {<<l, "wrongroute">>} ELSE {})
-                  \cup (IF k \in Callers /\ a # NoAddr /\ a \notin targets /\ a # director /\ cst[k] = "routed" THEN {<<l, "nottarget">>} ELSE {})
     /\ UNCHANGED <<vars, pendUpd, lastProbeMs, updDone>> /\ Adv
 \* the call returned: E.a = 0 ok, 1 ErrShutdown, 2 ErrTimeout, 3 ErrDial, 4 other
 TrApiRet ==
